@@ -37,6 +37,7 @@ import Gossamer.Lib.C20SpecEq
 import Gossamer.Lib.C20BitfieldWeight
 import Gossamer.Lib.C20GraphSim
 import Gossamer.Lib.C20GraphRoundSim
+import Gossamer.Lib.C20GraphCompl
 namespace Gossamer.C20
 
 variable {t : Tree} {ws : List Nat}
@@ -350,6 +351,23 @@ theorem C20_graph_round_refines (h : t.WF) (h0 : 0 < total ws) (key : Nat → Na
   refine ⟨s.ghost, s.fin, s.est, ?_, ?_⟩
   · rw [s.ghost, C20_ghost_eq_spec_partial h h0 ops hv htol]
   · rw [s.fin, C20_finalized_eq_spec_partial h h0 ops hv htol]
+
+/-- … and, on the region where the model round follows the paper (both phases tolerant, no gap), the round on the
+compressed graph reports the paper's estimate and completability as well: all four observables of `State()`
+computed on the real data structure equal the paper definitions. -/
+theorem C20_graph_round_eq_spec_partial (h : t.WF) (h0 : 0 < total ws) (key : Nat → Nat) (ops : List Op)
+    (hv : ValidOps t ops) (htol : tolerant ws ops false = true) (htolc : tolerant ws ops true = true)
+    (hgap : NoGap ws ops) (hov : 3 * total ws < MOD) :
+    (runC key t ws ops).ghost = pr t (specGhost t ws ops false) ∧
+    (runC key t ws ops).fin = pr t (specFinalized t ws ops) ∧
+    (runC key t ws ops).est = pr t (specEstimate t ws ops) ∧
+    (runC key t ws ops).compl = specCompletable t ws ops := by
+  obtain ⟨_, _, s3, s4, s5⟩ := C20_graph_round_refines h h0 key ops hv htol
+  have hov2 : 2 * total ws < MOD := by omega
+  refine ⟨s4, s5, ?_, ?_⟩
+  · rw [s3, C20_estimate_eq_spec_partial h h0 ops hv htol htolc hgap hov2]
+  · rw [complSim_run h h0 key hov ops hv htol htolc,
+        C20_completable_eq_spec_partial h h0 ops hv htol htolc hgap hov2]
 
 /-! ## the excluded regions are really excluded, and the hypotheses are satisfiable -/
 
